@@ -388,6 +388,35 @@ func C19(ctx *core.Ctx) {
 			ctx.Discharge("C19.R6", "cone(compiler.Compile) › no create-without-truncate", cc.FPos(entry), "no os.OpenFile with O_CREATE for writing (os.Create truncates)")
 		}
 	}
+	// ---- R7: nothing is decided by what the output directory already holds -----------
+	ctx.Rule("C19.R7", "generators never test whether an output file or directory already exists (os.Stat/Lstat, os.IsExist/IsNotExist, O_EXCL): the emitted text does not depend on what an earlier run left behind", 1)
+	{
+		n, scanned := 0, 0
+		for _, fn := range cone {
+			if fn.Pkg == nil || !strings.Contains(fn.Pkg.Pkg.Path(), "/compiler/generator") {
+				continue
+			}
+			scanned++
+			for _, c := range ssax.Calls(fn) {
+				switch c.FullName() {
+				case "os.Stat", "os.Lstat", "os.IsExist", "os.IsNotExist", "path/filepath.Glob", "os.ReadDir", "io/ioutil.ReadDir":
+					n++
+					ctx.Violate("C19.R7", QName(fn)+" › "+c.FullName(), cc.IPos(c.Instr),
+						"a generator looks at what the output directory already contains: a file left by an earlier run (another IDL revision, another target) is kept or changes what is written — in-place writers that rely on a fresh file then leave its stale tail — so the same IDL and options no longer give the same bytes in every output directory")
+				case "os.OpenFile":
+					if flags, isK := ssax.ConstInt(c.Args()[1]); isK && flags&0x80 != 0 { // O_EXCL
+						n++
+						ctx.Violate("C19.R7", QName(fn)+" › os.OpenFile(O_EXCL)", cc.IPos(c.Instr), "creation that fails or is skipped when the file exists: the result depends on the previous contents of the output directory")
+					}
+				}
+			}
+		}
+		if n == 0 {
+			ctx.Discharge("C19.R7", "generator packages › no existence test", cc.FPos(entry), sprintf("%d generator functions of the compile cone scanned", scanned))
+		}
+	}
+	ctx.Rule("C19.R8", "what is generated for a file does not depend on which other files the same run generated before it: no generator map field memoises the current program's resolution across SetFrugal", 1)
+	generatorCaches(ctx, cc, "C19.R8")
 	// ---- R4 -------------------------------------------------------------------------
 	ctx.Rule("C19.R5", "no compilation state outside package globals: no other package-level variable is written or mutated in place by the compile cone", 1)
 	{
